@@ -59,6 +59,8 @@ class BuildError(Exception):
 
 def build_ledger(force_configure=False):
     """(Re)build ledger from REPO's working tree with hooks on.  Incremental."""
+    if os.environ.get('VERIF_SKIP_BUILD') and os.path.exists(os.path.join(LEDGER_BUILD, 'ledger')):
+        return os.path.join(LEDGER_BUILD, 'ledger'), 0.0   # development aid only; never set by MANIFEST commands
     with Lock('build'):
         b = LEDGER_BUILD
         if force_configure or not os.path.exists(os.path.join(b, 'build.ninja')):
